@@ -3,7 +3,7 @@ CONSTANTS
   NConst = 0
   OrderMode = "file"
   SelfLoops = TRUE
-  MaxQ = 2
+  MaxQ = 0
   Dump = TRUE
 INVARIANT MemoComplete
 INVARIANT ResultCorrect
